@@ -67,11 +67,14 @@ def c12(replay_case=None):
         for cl in c["clauses"]:
             out.fail(cl, c["name"], {"kind": "roundtrip", "name": c["name"], "tlc": {"clauses": c["clauses"]}}, origin=c["origin"])
     out.assumptions = ["mtimes are set explicitly (os.utime) from the machine's clock, one tick per step: no equal mtimes",
-                       "a crash is injected by replacing save_table with a writer that stops after k bytes (k varied by step); touching the .pgc itself is not an action (it fabricates freshness)",
+                       "a crash of the table write is injected underneath the real save_table (a file object that fails after k characters, k varied by step); a crash of the hints write inside json.dump; touching the .pgc itself is not an action (it fabricates freshness)",
                        "writers of a complete cache file are identified by comparing its bytes with the no-cache serialisation for each option set and content version",
                        "force_load_table is outside the statement and not an action"]
     return out.finish(extra_cov={
-        "rule": "histories = every transition of Cache.tla's reachable graph (quick: shortest path to the source + the transition, depth <= 3; thorough: all paths, depth <= 4) over "
-                "{construct lr/glr/slr, crash while saving, pglr compile, edit/touch root and imported grammar}; each replayed on a real directory and its real trace validated by TLC; "
+        "rule": "histories = every transition of Cache.tla's and of HintCache.tla's reachable graph (quick: shortest path to the source + the transition, depth <= 3; thorough: all paths, depth <= 4; "
+                "plus directed construct ; edit ; crash ; construct histories) over "
+                "{construct lr/glr/slr, crash while saving (the real write path over a file that fails after k characters), pglr compile, edit/touch root and imported grammar; for the hints cache: construct lr/glr, crash while the hints are written, edit root / imported grammar / examples}; each replayed on a real directory and its real trace validated by TLC; "
                 "plus save/load round trips of tables of enumerated/random grammars; non-trivial = >= 2 constructions, a crash or an edit of the imported file; round trip: table > 600 bytes",
-        "graph": {k: st[k] for k in ("graph_states", "graph_transitions", "paths")}, "exhaustive": True})
+        "graph": {k: st[k] for k in ("graph_states", "graph_transitions", "paths")},
+        "hint_cache_graph": {k: st[k] for k in ("hgraph_states", "hgraph_transitions", "hpaths")} | {"negative_controls_violated": st["hgraph"]["controls_violated"]},
+        "exhaustive": True})
